@@ -106,3 +106,34 @@ def lattice4(K=2, seed=0, orientations=2):
     tot = sum(out)
     assert np.allclose(tot[:, 1:], 0, atol=1e-12) and np.allclose(tot[:, 0], M4["A"], atol=1e-12)
     return out
+
+
+# ------------------------------------------------------------------ two groups of identical particles: (B, C) and (D, E)
+M4ID = {"A": 4.0, "B": 0.5, "C": 0.5, "D": 0.35, "E": 0.35}
+
+
+def id_card4(kind="scalar", data=None):
+    """A -> R_BD R_CE and A -> R_BCD E, R_BCD -> R_BD C with identical_particles [[B, C], [D, E]]; the library adds the
+    exchanged terms itself"""
+    fin_jp = {"scalar": (0, -1), "vector": (1, -1)}[kind]
+    pb = [{"p_break": True}]
+    decay = {"A": [["R_BD", "R_CE"] + pb, ["R_BCD", "E"] + pb], "R_BCD": [["R_BD", "C"] + pb], "R_BD": [["B", "D"] + pb], "R_CE": [["C", "E"] + pb]}
+    particle = {"$top": {"A": {"J": 0, "P": -1, "mass": M4ID["A"]}}, "$finals": {}}
+    for n in "BCDE":
+        jp = fin_jp if n in "BC" else (0, -1)
+        particle["$finals"][n] = {"J": jp[0], "P": jp[1], "mass": M4ID[n]}
+    particle["R_BD"] = {"J": 1, "P": -1, "mass": 1.3, "width": 0.15}
+    particle["R_CE"] = {"J": 1, "P": -1, "mass": 1.5, "width": 0.2}
+    particle["R_BCD"] = {"J": 1, "P": 1, "mass": 2.4, "width": 0.3}
+    d = {"dat_order": ["B", "C", "D", "E"], "identical_particles": [["B", "C"], ["D", "E"]], **(data or {})}
+    return {"data": d, "decay": decay, "particle": particle, "constrains": {"decay": {"fix_chain_idx": 0, "fix_chain_val": 1.0}}}
+
+
+def lattice4_id(K=2, seed=0, orientations=2):
+    old = dict(M4)
+    try:
+        M4.update(M4ID)
+        return lattice4(K, seed, orientations)
+    finally:
+        M4.clear()
+        M4.update(old)
